@@ -111,12 +111,38 @@ func isNilNode(n ast.Node) bool {
 	return false
 }
 
+// hookNames: full names of hookable library functions (verifBefore) called in the node.
+func (in *instrumenter) hookNames(n ast.Node) []string {
+	var out []string
+	ast.Inspect(n, func(x ast.Node) bool {
+		switch y := x.(type) {
+		case *ast.FuncLit, *ast.BlockStmt:
+			return false
+		case *ast.CallExpr:
+			if sel, ok := y.Fun.(*ast.SelectorExpr); ok {
+				if f, ok := in.info.Uses[sel.Sel].(*types.Func); ok {
+					full := f.FullName()
+					if strings.HasPrefix(full, "reflect.Select") {
+						out = append(out, full)
+					}
+				}
+			}
+		}
+		return true
+	})
+	return out
+}
+
 func (in *instrumenter) points(nodes ...ast.Node) []ast.Stmt {
 	var out []ast.Stmt
 	seen := map[int]bool{}
 	for _, n := range nodes {
 		if n == nil || isNilNode(n) {
 			continue
+		}
+		for _, hn := range in.hookNames(n) {
+			out = append(out, &ast.ExprStmt{X: &ast.CallExpr{Fun: ast.NewIdent("verifHook"),
+				Args: []ast.Expr{&ast.BasicLit{Kind: token.STRING, Value: fmt.Sprintf("%q", hn)}}}})
 		}
 		for _, p := range in.visiblePositions(n) {
 			line := in.fset.Position(p).Line
